@@ -499,7 +499,7 @@ pub fn run(tier: &str) -> i32 {
     o.cov("passes", json!(recs));
     o.cov("distinct_outcomes", json!(all.len()));
     o.cov("exhaustive", json!(exhaustive));
-    fold_e3(&mut o, "C08", tier, &bodies(tier), "e3_");
+    fold_e3(&mut o, "C08", tier, &crate::e3::with_variants(bodies(tier), tier), "e3_");
     o.cov("rule", json!("E1: for both transactional databases, every program up to the depth of in-transaction operations {insert, remove, take, fetch_update and update_fetch with closures keep/change/delete} on overlapping keys of two keyspaces over a non-empty snapshot (data in a table and in the memtable), ending in commit / rollback / drop; after EVERY step every read method inside the transaction must equal the snapshot overlaid with its own writes, return values must be the documented previous/new value, and an outside observer must still see the initial state; after the ending the outside view (all read methods, and again after a reopen) must be exactly the final write per key (commit) or unchanged (rollback/drop). E3: competing increment transactions on both databases under every schedule up to the preemption bound: the final counter equals the number of committed increments, single-writer critical sections never overlap."));
     o.assumptions = vec!["one open transaction in the E1 part (interleaved transactions are C07's and the E3 bodies')".into()];
     o.wall_s = t0.elapsed().as_secs_f64();
@@ -511,7 +511,7 @@ pub fn replay(v: &serde_json::Value) -> i32 {
         let tier = v["variant"]["tier"].as_str().unwrap_or("quick");
         let bi = v["variant"]["body_index"].as_u64().unwrap_or(0) as usize;
         let choices: Vec<usize> = v["variant"]["choices"].as_array().map(|a| a.iter().filter_map(|c| c.as_u64().map(|c| c as usize)).collect()).unwrap_or_default();
-        return match bodies(tier).get(bi) {
+        return match crate::e3::with_variants(bodies(tier), tier).get(bi) {
             Some(b) => replay_schedule(&*b.body, &choices),
             None => 2,
         };
